@@ -55,8 +55,8 @@ def run(ctx):
         cfg['take'] = rnd.choice([0, 1, 2, 3, 5]); cfg['skip'] = rnd.choice([0, 0, 1, 3])
         vals = gen.records(rnd, 12)
         unit = gen.record(rnd); unit.update({'a': 1, 'k': 'y', 'arr': [{'a': 1, 'k': 'x'}, {'a': 2, 'k': 'x'}], 'flag': True})
-        data = gen.stream(vals, rnd) + b'\n'
-        ub = gen.jdump(unit) + b'\n'
+        data = gen.stream(vals, rnd) + rnd.choice([b'\n', b' ', b'\t'])
+        ub = gen.jdump(unit) + rnd.choice([b'\n', b'\n', b' ', b'\t', b'', b'\r\n', b'  '])      # the stream need not be line oriented
         c = mkcase('E%d' % i, cfg, data)
         c['inputs'][0]['endless'] = ub; c['inputs'][0]['budget'] = 400000; c['inputs'][0]['model_tail'] = ub * REPS
         cases.append(c)
